@@ -73,6 +73,15 @@ CLAIMED = {
    "exhaustive enumeration of all ordered unit pairs x magnitudes against a reference dimension/scale/offset table",
    "All 443² ordered pairs of database units x 9 magnitudes: convert_to succeeds iff same dimension (or both byte units), equals the physical conversion within a derived forward-error bound and converts back; unit * and / yield only database units with the right dimension and scale; Number + - * / carry units as stated.",
    "Error bounds are derived from the operation count of the formula; +/- with one unit-less operand is unconstrained by the statement."),
+ "C17": ("model_checking", "DESIGN.md §5 C17, Appendix C",
+   "explicit-state BFS (E3) over canonical handle-pool states; every transition executes the real extern \"C\" function on a pool rebuilt by replaying the state's shortest history, in lock-step with a pure-Rust model",
+   "Pool of 3 value handles + 1 filter handle; ~36 constructors (every kind; valid, invalid and non-UTF-8 arguments; Zinc/JSON text; from other handles) and all list/dict/grid/datetime/filter operations with slot, index {0,1,7}, key {a,b,invalid} and 5 filter-text domains. BFS to depth 4 (quick: 155 301 states, 2.96 M transitions) / 5 (thorough, state cap 6 M). After every step: return value = model (documented sentinel on failure), error message retrievable exactly once iff failure, whole pool deep-equal to the model (a failure leaves every handle unchanged), borrowed pointers dereferenced immediately; after the last step all 18 predicates and 35 getters incl. to_zinc_string/to_json_string on every live handle against the Rust API.",
+   "The model is written from the header documentation and the Rust API. Equal model pools are assumed to have equal futures (the API's only other state is the thread-local last error, which is drained and checked at every call)."),
+ "C18": ("model_checking", "DESIGN.md §5 C18",
+   "the C17 explicit-state search executed by an AddressSanitizer/LeakSanitizer build of the harness in isolated child processes + exhaustive NULL-argument sweep in every state reached with <= 2 calls",
+   "Every history of the C17 search to depth 3 (quick: 87 k transitions) / 4 (thorough: ~3 M) runs under -Zsanitizer=address with the protocol's clean-up at its end (every live handle, filter and returned string destroyed exactly once); LeakSanitizer passes run periodically and after each history in single-step mode, so a leak, use-after-free, double free or overflow is attributed to a minimal history. In each of the 748 states reached with <= 2 calls every non-destroy function is called with each pointer parameter NULL (one at a time and all together, every live handle as the other argument): documented sentinel, error pending, pool unchanged, no crash or abort.",
+   "AddressSanitizer/LeakSanitizer (nightly toolchain, std not instrumented) are the monitors; histories are exhaustive to the depth bound. A panic inside extern \"C\" aborts and is seen through the exit status."),
+
  "C19": ("exploration", "DESIGN.md §5 C19",
    "exhaustive enumeration: all values of the universe x all predicates/conversions/getters; all 256 codes; all names and near-miss names; all record lists up to length 3",
    "Every value of Σ ∪ U: exactly one of 18 predicates, HaystackKind::from, all 20 typed TryFrom<&Value> and 14 dict getters + 3 has_* succeed exactly for the matching kind and return the stored payload; all 256 u8 codes and 18 names map one-to-one and every near-miss name is rejected; every list of <= 3 records through the three grid constructors keeps rows in order with sorted distinct columns.",
@@ -108,7 +117,7 @@ def main():
         hooks_commits = [l.strip() for l in open(hc) if l.strip()]
     m = {
         "version": 1,
-        "setup_cmd": "cd /verif/harness && CARGO_NET_OFFLINE=true cargo build --release --offline",
+        "setup_cmd": "cd /verif/harness && CARGO_NET_OFFLINE=true cargo build --release --offline && RUSTFLAGS='-Zsanitizer=address --cfg j2inn_libhaystack_verif --cfg verif_asan' CARGO_NET_OFFLINE=true cargo +nightly build --release --offline --target x86_64-unknown-linux-gnu --target-dir /verif/target-asan",
         "hooks": {
             "guard": "--cfg j2inn_libhaystack_verif",
             "enable": "RUSTFLAGS='--cfg j2inn_libhaystack_verif' via /verif/harness/.cargo/config.toml ([build] rustflags); the harness crate depends on /repo by path, so every check rebuilds libhaystack from the working tree with the guard on",
